@@ -330,6 +330,11 @@ func toCells(in *lisp.LVal) ([]*lisp.LVal, error) {
 		if in.Cells[0].Len() > 1 {
 			return nil, errors.New("cannot index multi-dimensional array")
 		}
+		if in.Cells[0].Len() == 0 {
+			// a zero-dimensional array holds one value and has no index;
+			// its dims list has no length cell for storeCells to update
+			return nil, errors.New("cannot index zero-dimensional array")
+		}
 		cells := in.Cells[1].Cells
 		return cells, nil
 	case lisp.LSExpr:
